@@ -187,3 +187,19 @@ MUTANTS = [
     ("HasSalt._parse_salt: leniency of the customised class leaks into parsing", "passlib/utils/handlers.py", "    def _parse_salt(self, salt):\n        return self._norm_salt(salt)\n", "    def _parse_salt(self, salt):\n        return self._norm_salt(salt, relaxed=getattr(self, \"relaxed\", False))\n", "refute", "HasSalt._parse_salt"),
     ("HasRounds._parse_rounds: cost below the minimum clamped while parsing", "passlib/utils/handlers.py", "    def _parse_rounds(self, rounds):\n        return self._norm_rounds(rounds)\n", "    def _parse_rounds(self, rounds):\n        return self._norm_rounds(rounds, relaxed=True)\n", "refute", "HasRounds._parse_rounds"),
 ]
+
+# ---- a parsed parallelism value is validated, whatever it is (0 is refused, not replaced by the class default) --------------------
+from pyvc.contract import Opt as _Opt  # noqa: E402
+
+CONTRACTS.append(Contract(
+    "ParallelismMixin.__init__", "passlib/utils/handlers.py::ParallelismMixin.__init__",
+    params={"self": Obj(cls=("passlib/utils/handlers.py", "ParallelismMixin"), fields={"parallelism": 1, "name": "handler", "_norm_parallelism": SStub(
+        lambda it, a, k: (it.may_raise("ValueError", it.to_z3(a[0], "int") >= 1), a[0])[1], "_norm_parallelism", trusted="norm_integer(min=1), strict: own contract under C09")}),
+            "parallelism": _Opt(Int()), "kwds": Const(SDict())},
+    globals={"super.__init__": SStub(lambda it, a, k: None, "GenericHandler.__init__"), "validate_default_value": SStub(lambda it, a, k: True, "validate_default_value")},
+    raises={"ValueError": "parallelism is not None and parallelism < 1"},
+    ensures=[("a given parallelism is kept exactly (>= 1) -- never silently replaced by the class default", "self.parallelism == (1 if parallelism is None else parallelism) and (parallelism is None or parallelism >= 1)")],
+    canary=False,
+    descr="every parsed parallelism value incl. 0 and negatives",
+))
+MUTANTS.append(("ParallelismMixin: parallelism 0 falls back to the class default", "passlib/utils/handlers.py", "        if parallelism is None:\n            assert validate_default_value(\n                self, self.parallelism, self._norm_parallelism, param=\"parallelism\"\n            )\n        else:\n            self.parallelism = self._norm_parallelism(parallelism)", "        if parallelism:\n            self.parallelism = self._norm_parallelism(parallelism)\n        else:\n            assert validate_default_value(\n                self, self.parallelism, self._norm_parallelism, param=\"parallelism\"\n            )", "refute", "ParallelismMixin.__init__"))
